@@ -18,6 +18,7 @@ import (
 	"math/rand"
 	"sort"
 	"sync"
+	"sync/atomic"
 	"time"
 )
 
@@ -202,15 +203,21 @@ func (c *Collector) AllocCounter(name string) *Counter {
 	defer c.rwmu.Unlock()
 	counter, ok := c.counters[name]
 	if ok {
+		atomic.AddInt32(&counter.refs, 1)
 		return counter
 	}
 
+	// the connections to one backend share the counter (a new connection is made
+	// while the old one is still being stopped): only the last one unregisters it.
 	cb := func() {
 		c.rwmu.Lock()
-		delete(c.counters, name)
+		if atomic.AddInt32(&counter.refs, -1) <= 0 && c.counters[name] == counter {
+			delete(c.counters, name)
+		}
 		c.rwmu.Unlock()
 	}
 	counter = NewCounter(c.capacity, cb)
+	counter.refs = 1
 	c.counters[name] = counter
 	return counter
 }
